@@ -97,6 +97,57 @@ def reaches_class(schema, t, target, seen=None):
     return False
 
 
+SER_PROFILES = [(False, False), (False, False), (True, False), (False, True), (True, True), (True, True)]
+
+
+def gen_hooks(rng):
+    """hook profile of a class, stratified: 'no serialize hooks' (a pure transit class), pre only, post only, both -
+    independent coin flips make the hook-less opted-in class in the middle of a chain too rare"""
+    pre, post = rng.choice(SER_PROFILES)
+    prede, postde = rng.choice(SER_PROFILES)
+    return {"pre": pre, "post": post, "prede": prede, "postde": postde}
+
+
+def gen_chain_schema(rng):
+    """Context/flag chains: class c holds class c-1 directly or through Optional/List/Tuple/Dict (depth 3-5), every
+    class draws its own (context opt-in, other flags, hook profile); optionally a side branch.  No unions, no
+    inheritance: the whole difference between two such schemas is *which* classes on the path opted in and which
+    declare hooks."""
+    kind = rng.choice([k for k in KINDS if k != "plain"])
+    depth = rng.choice([3, 3, 4, 5])
+    toml = kind == "toml"
+    names, classes = {}, []
+    schema = {"kind": kind, "kw_only": rng.random() < 0.5, "repl": rng.random() < 0.5, "toml_safe": toml,
+              "dialect": False, "mixed_flags": True, "future_ann": rng.random() < 0.5, "chain": True,
+              "names": names, "classes": classes}
+    opt_defaults = toml or rng.random() < 0.5
+
+    def new_name(t):
+        n = len(names)
+        names[str(n)] = {"ty": t, "default": bool(t[0] == "opt" and opt_defaults)}
+        return n
+    lk = lambda: rng.choice(["list", "tuple", "dict"])
+    for c in range(depth):
+        own = [new_name(["int"])]
+        if c > 0:
+            d = ["dc", c - 1]
+            link = rng.choice([d, d, ["opt", d], ["list", lk(), d], ["list", lk(), d], ["opt", ["list", lk(), d]]]
+                              + ([] if toml else [["list", lk(), ["opt", d]]]))
+            own.append(new_name(link))
+            if c >= 2 and rng.random() < 0.3:     # a second way down, skipping a level
+                own.append(new_name(rng.choice([["dc", c - 2], ["opt", ["dc", c - 2]], ["list", lk(), ["dc", c - 2]]])))
+            if rng.random() < 0.2:                # self reference
+                own.append(new_name(["opt", ["dc", c]]))
+            rng.shuffle(own)
+        if not schema["kw_only"]:
+            own = [n for n in own if not names[str(n)]["default"]] + [n for n in own if names[str(n)]["default"]]
+        classes.append({"parent": None, "own_fields": own, "own_hooks": gen_hooks(rng),
+                        "own_ctx": rng.random() < 0.7,
+                        "flags": [f for f in ("omit_none", "by_alias", "dialect") if rng.random() < 0.35]})
+    classes[-1]["own_ctx"] = classes[-1]["own_ctx"] or rng.random() < 0.8      # the call passes context= only then
+    return schema
+
+
 def gen_schema(rng):
     kind = rng.choice(KINDS)
     toml = kind == "toml" or rng.random() < 0.2     # toml-safe: no None inside lists, Optional fields default to None
@@ -126,12 +177,18 @@ def gen_schema(rng):
                 own.append(n)
         if not kw_only:
             own = [n for n in own if not names[str(n)]["default"]] + [n for n in own if names[str(n)]["default"]]
-        hooks = {h: rng.random() < 0.6 for h in L.HOOKS}
+        hooks = gen_hooks(rng)
         if parent is not None:
-            own_ctx = rng.choice([None, None, True, False])
+            own_ctx = rng.choice([None, None, True, True, False])
         else:
-            own_ctx = rng.choice([None, True, True, False])
+            own_ctx = rng.choice([None, True, True, True, False])
         classes.append({"parent": parent, "own_fields": own, "own_hooks": hooks, "own_ctx": own_ctx})
+    # per-class code generation options other than the context: only where no union can see differing flag lists
+    if kind != "plain" and not schema["dialect"] and rng.random() < 0.4 \
+            and not any(L.ty_has_union(x["ty"]) for x in names.values()):
+        schema["mixed_flags"] = True
+        for k in classes:
+            k["flags"] = [f for f in ("omit_none", "by_alias", "dialect") if rng.random() < 0.35]
     # Config discriminators (deserialization only, outside the Coq model: oracle only)
     if inherit and rng.random() < 0.5:
         for c in range(ncls):
@@ -152,25 +209,49 @@ class Uid:
         return self.n
 
 
-def gen_value(rng, schema, t, depth, uid, toml):
+def gen_value(rng, schema, t, depth, uid, toml, maxd=4):
     if t[0] == "int":
         return ["int", rng.randrange(50)]
     if t[0] == "opt":
-        if depth >= 4 or rng.random() < 0.3:
+        if depth >= maxd or rng.random() < (0.3 if maxd == 4 else 0.15):
             return ["none"]
-        return gen_value(rng, schema, t[1], depth, uid, toml)
+        return gen_value(rng, schema, t[1], depth, uid, toml, maxd)
     if t[0] == "list":
-        n = 0 if depth >= 4 else rng.choice([0, 1, 1, 2, 2, 3] if depth < 2 else [0, 1, 1, 2])
-        return ["list", t[1], [gen_value(rng, schema, t[2], depth + 1, uid, toml) for _ in range(n)]]
+        n = 0 if depth >= maxd else rng.choice([0, 1, 1, 2, 2, 3] if depth < 2 else [0, 1, 1, 2])
+        return ["list", t[1], [gen_value(rng, schema, t[2], depth + 1, uid, toml, maxd) for _ in range(n)]]
     if t[0] == "union":
-        return gen_value(rng, schema, ["dc", rng.choice(t[1])], depth, uid, toml)
+        return gen_value(rng, schema, ["dc", rng.choice(t[1])], depth, uid, toml, maxd)
     c = t[1]
     if schema["classes"][c].get("disc"):
         c = rng.choice(L.descendants(schema, c))      # a tagged subclass
     i = uid.next()
-    fs = [[n, gen_value(rng, schema, L.name_ty(schema, n), depth + 1, uid, toml)] for n in L.flat_fields(schema, c)]
+    fs = [[n, gen_value(rng, schema, L.name_ty(schema, n), depth + 1, uid, toml, maxd)] for n in L.flat_fields(schema, c)]
     r = uid.next() if (L.has_hook(schema, c, "pre") and rng.random() < 0.35) else None
     return ["inst", c, i, r, fs]
+
+
+def transit_leaves(schema, v, on_path=True, depth=0, transit=False):
+    """(number of hooked opted-in instances at depth >= 2 whose token must be the caller's and which are reached through
+    at least one opted-in class without serialize hooks, max depth of an instance on an all-opted-in path)"""
+    n, md = 0, 0
+    if v[0] == "inst":
+        c = v[1]
+        here = on_path and L.ctx_on(schema, c)
+        hooked = L.has_hook(schema, c, "pre") or L.has_hook(schema, c, "post")
+        if here:
+            md = depth + 1
+            if hooked and transit and depth >= 2:
+                n += 1
+        for _, x in v[4]:
+            a, b = transit_leaves(schema, x, here, depth + 1, transit or (here and not hooked))
+            n += a
+            md = max(md, b)
+    elif v[0] == "list":
+        for x in v[2]:
+            a, b = transit_leaves(schema, x, on_path, depth, transit)
+            n += a
+            md = max(md, b)
+    return n, md
 
 
 def gen_root_ty(rng, schema, want_dc):
@@ -225,7 +306,7 @@ def entries_for(rng, schema, root_ty, direction, thorough):
             es.append({"dir": direction, "via": "mixin", "method": m, "ctx": False})
             if direction == "ser" and L.ctx_on(schema, root_ty[1]):
                 es.append({"dir": direction, "via": "mixin", "method": m, "ctx": True})
-            if schema.get("dialect"):     # same calls with an (empty) call-time dialect
+            if "dialect" in L.class_flags(schema, root_ty[1]):     # same calls with an (empty) call-time dialect
                 es.append({"dir": direction, "via": "mixin", "method": m, "ctx": False, "dialect": True})
                 if direction == "ser" and L.ctx_on(schema, root_ty[1]):
                     es.append({"dir": direction, "via": "mixin", "method": m, "ctx": True, "dialect": True})
@@ -248,7 +329,7 @@ def shape_key(schema, root_ty, value, entry):
         if v[0] == "list":
             return ("l", tuple(vs(x) for x in v[2]))
         return v[0]
-    s = json.dumps([schema["kind"], schema["kw_only"], schema["repl"], schema.get("dialect"), schema.get("future_ann"), schema["names"], schema["classes"], root_ty,
+    s = json.dumps([schema["kind"], schema["kw_only"], schema["repl"], schema.get("dialect"), schema.get("mixed_flags"), schema.get("future_ann"), schema["names"], schema["classes"], root_ty,
                     entry], sort_keys=True) + repr(vs(value))
     return hashlib.sha1(s.encode()).hexdigest()[:16]
 
@@ -380,6 +461,8 @@ def run(ctx: vlib.Ctx):
         ctx.hist("schema_features", "repl-hooks", int(schema["repl"]))
         ctx.hist("schema_features", "config-discriminator", int(bool(schema.get("has_disc"))))
         ctx.hist("schema_features", "call-dialect", int(bool(schema.get("dialect"))))
+        ctx.hist("schema_features", "per-class-flags", int(bool(schema.get("mixed_flags"))))
+        ctx.hist("schema_features", "chain-family", int(bool(schema.get("chain"))))
         ctx.hist("schema_features", "postponed-annotations", int(bool(schema.get("future_ann"))))
         try:
             for root_ty, value in roots:
@@ -425,6 +508,18 @@ def run(ctx: vlib.Ctx):
         for vi in range(vals_per):
             root_ty = gen_root_ty(rng, schema, want_dc=(vi == 0))
             roots.append((root_ty, gen_value(rng, schema, root_ty, 0, Uid(), schema["toml_safe"])))
+        do_schema(si, schema, roots)
+        si += 1
+
+    # context / flag chains (depth 3-5, every class with its own opt-ins and hook profile)
+    for _ in range(ctx.budget(60, 500)):
+        schema = gen_chain_schema(rng)
+        root_ty = ["dc", len(schema["classes"]) - 1]
+        roots = [(root_ty, gen_value(rng, schema, root_ty, 0, Uid(), schema["toml_safe"], maxd=12)) for _ in range(2)]
+        for _, v in roots:
+            nt, md = transit_leaves(schema, v)
+            ctx.hist("context_chains", "hooked opted-in node behind a hook-less opted-in class", int(nt > 0))
+            ctx.hist("context_chains", f"all-opted-in path depth {min(md, 5)}")
         do_schema(si, schema, roots)
         si += 1
 
